@@ -943,6 +943,8 @@ class World:
                     rec.ret = h.put_request(arg)
                 elif op == "cancel":
                     rec.ret = h.cancel_request(arg)
+                elif op == "fetch":
+                    pass  # the user only fetches the PDUs that are ready (the drain below), no request, no state machine call
                 else:
                     raise RuntimeError(op)
             finally:
